@@ -17,6 +17,7 @@
 package pdf
 
 import (
+	"errors"
 	"fmt"
 	"io"
 	"math"
@@ -378,7 +379,21 @@ func DecodeExclusive[T any](c Cursor, obj Object, decode func(Cursor, Object, bo
 	x.mu.Unlock()
 	verifYield("ex:owner")
 
+	finished := false
+	defer func() {
+		if finished {
+			return
+		}
+		// the decode function panicked (or called runtime.Goexit): release
+		// the waiters, and let later callers start afresh
+		x.mu.Lock()
+		p.err = errors.New("exclusive decode did not complete")
+		delete(x.wip, key)
+		x.mu.Unlock()
+		close(p.done)
+	}()
 	res, err := Decode(c, obj, decode)
+	finished = true
 
 	verifYield("ex:pre-publish")
 	x.mu.Lock()
